@@ -192,22 +192,25 @@ inductive PropDecoded where
   | n (v : Nat)
   deriving DecidableEq, Repr
 
-/-- `PropertyId.decode(data)`; `none` = the Python `None` (buzzer) -/
-def propDecode (pid : Nat) (data : Bytes) : R (Option PropDecoded) :=
-  if ¬ Generated.propertySupported.contains pid then .error (.py "NotImplementedError") else
-  if pid = pidBreezeless ∨ pid = pidSelfClean then do
-    let x ← Py.idx data 0
-    pure (some (.b (x ≠ 0)))
-  else if pid = pidBreezeAway then do
-    let x ← Py.idx data 0
-    pure (some (.b (x = 2)))
-  else if pid = pidBuzzer then pure none
-  else if pid = pidIeco then do
-    let x ← Py.idx data 1
-    pure (some (.b (x ≠ 0)))
-  else do
-    let x ← Py.idx data 0
-    pure (some (.n x.toNat))
+/-- outcome of `PropertyId.decode(data)` -/
+inductive PropDec where
+  | notImplemented                 -- NotImplementedError (id not in `_supported`)
+  | indexError                     -- data shorter than the decoder needs
+  | noValue                        -- Python `None` (buzzer)
+  | value (v : PropDecoded)
+  deriving DecidableEq, Repr
+
+def idxOr {α} (l : List α) (i : Nat) (f : α → PropDec) : PropDec :=
+  match l[i]? with | some x => f x | none => .indexError
+
+/-- `PropertyId.decode(data)` -/
+def propDecode (pid : Nat) (data : Bytes) : PropDec :=
+  if ¬ Generated.propertySupported.contains pid then .notImplemented else
+  if pid = pidBreezeless ∨ pid = pidSelfClean then idxOr data 0 (fun x => .value (.b (x ≠ 0)))
+  else if pid = pidBreezeAway then idxOr data 0 (fun x => .value (.b (x = 2)))
+  else if pid = pidBuzzer then .noValue
+  else if pid = pidIeco then idxOr data 1 (fun x => .value (.b (x ≠ 0)))
+  else idxOr data 0 (fun x => .value (.n x.toNat))
 
 abbrev PropDict := List (Nat × PropDecoded)
 
@@ -226,10 +229,10 @@ def propStep (d : PropDict) (props : Bytes) : PropStep :=
     if sizeB = 0 then .next d (props.drop 4) else
     if ¬ knownPropertyId (Py.fromLE (props.take 2)) then .next d (props.drop (4 + sizeB.toNat)) else
     match propDecode (Py.fromLE (props.take 2)) (props.drop 4) with
-    | .error (.py "NotImplementedError") => .next d (props.drop (4 + sizeB.toNat))
-    | .error e => .err e
-    | .ok none => .next d (props.drop (4 + sizeB.toNat))
-    | .ok (some v) => .next (dictSet d (Py.fromLE (props.take 2)) v) (props.drop (4 + sizeB.toNat))
+    | .notImplemented => .next d (props.drop (4 + sizeB.toNat))
+    | .indexError => .err indexError
+    | .noValue => .next d (props.drop (4 + sizeB.toNat))
+    | .value v => .next (dictSet d (Py.fromLE (props.take 2)) v) (props.drop (4 + sizeB.toNat))
 
 def parsePropsLoop : Nat → PropDict → Bytes → R PropDict
   | 0, d, _ => .ok d
@@ -325,19 +328,35 @@ def respClass (frame : Bytes) : R RespClass := do
     else pure .base
   else pure .base
 
-/-- `Response.construct(frame)` -/
-def construct (frame : Bytes) : R Resp := do
-  frameValidate frame
-  let cls ← respClass frame
-  if cls ≠ .props then respValidate ((frame.drop 10).dropLast)
-  let p := ((frame.drop 10).dropLast).dropLast      -- frame[10:-2]
-  let id ← Py.idx p 0                               -- Response.__init__: payload[0]
+/-- payload CRC validation, skipped for properties responses -/
+def validateUnlessProps (cls : RespClass) (frame : Bytes) : R Unit :=
+  if cls ≠ .props then respValidate ((frame.drop 10).dropLast) else .ok ()
+
+/-- `response_class(frame_mv[10:-2])` -/
+def buildResp (cls : RespClass) (id : UInt8) (p : Bytes) : R Resp :=
   match cls with
-  | .base => pure (.base id p)
-  | .state => do let s ← parseState p; pure (.state s)
-  | .caps => do let c ← parseCaps p; pure (.caps c)
-  | .props => do let d ← parseProps p; pure (.props id d)
-  | .energy => do let e ← parseEnergy p; pure (.energy e)
-  | .humidity => do let h ← parseHumidity p; pure (.humidity h)
+  | .base => .ok (.base id p)
+  | .state => (parseState p).map .state
+  | .caps => (parseCaps p).map .caps
+  | .props => (parseProps p).map (.props id)
+  | .energy => (parseEnergy p).map .energy
+  | .humidity => (parseHumidity p).map .humidity
+
+/-- `Response._construct(frame)` (the body of `construct` before IndexError is mapped) -/
+def constructInner (frame : Bytes) : R Resp := do
+  let _ ← frameValidate frame
+  let cls ← respClass frame
+  let _ ← validateUnlessProps cls frame
+  let id ← Py.idx (((frame.drop 10).dropLast).dropLast) 0    -- Response.__init__: payload[0]
+  buildResp cls id (((frame.drop 10).dropLast).dropLast)     -- frame[10:-2]
+
+/-- `Response.construct(frame)`: IndexError (frame or payload shorter than its type requires) is
+    turned into InvalidResponseException (repaired by `fix:` commit e1e5d79) -/
+def mapIndexError (e : Err) : Err := if e = indexError then .invalidResponse else e
+
+def construct (frame : Bytes) : R Resp :=
+  match constructInner frame with
+  | .error e => .error (mapIndexError e)
+  | .ok r => .ok r
 
 end Msmart.Model
